@@ -131,10 +131,6 @@ pub fn band_of(k: u32) -> usize {
 }
 const BAND_NAMES: [&str; 3] = ["K<=120", "121..1000", "large (2000..10000)"];
 
-pub fn gen_trial(seed: u64, h: u32, thorough: bool, large: bool) -> Trial {
-    gen_trial_band(seed, h, thorough, if large { 2 } else { 0 })
-}
-
 pub fn gen_trial_band(seed: u64, h: u32, thorough: bool, band: u8) -> Trial {
     let mut r = Rng::new(seed);
     let k = if band == 2 {
